@@ -156,6 +156,7 @@ fn c02_parts(div: u64) -> Vec<Part> {
         part(Box::new(Erased(engines::ift::IftFaultFree)), 50_000 / div, 1_000_000 / div, "C02", 20),
         part(Box::new(Erased(engines::ift::IftFaulty)), 100_000 / div, 2_000_000 / div, "C02", 20),
         part(Box::new(Erased(engines::ift::IftHostile)), 150_000 / div, 3_000_000 / div, "C02", 20),
+        part(Box::new(Erased(engines::hintops::HintOps)), 1_500_000 / div, 30_000_000 / div, "C02", 20),
     ]
 }
 
